@@ -89,7 +89,48 @@ def units_of(case):
     return len(codec.dec_str(case["x"]).splitlines(True)) if case["x"] else 0
 
 
+def bad_byte_path_check(case):
+    """text register file read from a PATH: larger than one decoding chunk, with one byte that is not valid in
+    the declared encoding late in the file.  The read ends by raising UnicodeDecodeError or by returning, and
+    in either case within the element bound (lines + placeholder)"""
+    import os
+    import shutil
+    import tempfile
+
+    from cfinterface.data.registerdata import RegisterData
+
+    x = codec.dec_str(case["x"]) or "filler line\n"
+    if not x.endswith("\n"):
+        x += "\n"
+    text = (x * (14000 // len(x) + 1)).encode("utf-8", "replace")
+    # 0xE3 opens a three-byte sequence: put in front of an ASCII byte it can never be decoded
+    pos = next(i for i in range(len(text) - 20, 0, -1) if text[i] < 128)
+    data = text[:pos] + b"\xe3" + text[pos:]
+    nlines = data.count(b"\n") + (0 if data.endswith(b"\n") else 1)
+    budget = nlines + 1
+    d = tempfile.mkdtemp(prefix="cfi_c18_")
+    try:
+        path = os.path.join(d, "deck.txt")
+        with open(path, "wb") as fh:
+            fh.write(data)
+        RF, _ = fsup.mk_register_file(case["regs"], "TEXT")
+        try:
+            o = count_appends(RegisterData, budget, lambda: RF.read(path), len(case["regs"]))
+            ok = bool(o["returned"])
+            why = f"returned={o['returned']} appends={o['appends']} lines={nlines}"
+        except UnicodeDecodeError:
+            ok, why = True, "raised UnicodeDecodeError"
+        return {"checks": {"read_of_a_path_with_an_undecodable_byte_ends_within_the_element_bound": ok}, "detail": why}
+    finally:
+        shutil.rmtree(d, ignore_errors=True)
+
+
 def run_impl(case):
+    if case.get("bad_byte_path"):
+        try:
+            return bad_byte_path_check(case)
+        except Exception as e:
+            return codec.enc_exc(e)
     fam, binary = case["family"], case["binary"]
     x = bytes(case["x"]) if binary and case["family"] != "section" else codec.dec_str(case["x"])
     if binary and case["family"] == "section":
@@ -132,6 +173,8 @@ def run_impl(case):
 
 
 def request(case, obs):
+    if case.get("bad_byte_path"):
+        return {"op": "all", "obs": obs if "checks" in obs else {"exc": "harness"}}
     o = obs if "returned" in obs else {"returned": False, "appends": 0}
     # a binary section file is read line by line like a text one: the model of the text is the model of the bytes
     xs = case["x"]
@@ -149,6 +192,12 @@ def judge(case, obs, resp):
         return {"status": "error", "why": resp["error"]}
     if "harness_exc" in obs:
         return {"status": "error", "why": f"harness: {obs['harness_exc']} {obs.get('msg')}"}
+    if case.get("bad_byte_path"):
+        if "exc" in obs:
+            return {"status": "error", "why": f"harness raised {obs['exc']}: {obs.get('msg')}"}
+        if not resp["holds"]:
+            return {"status": "oracle", "why": f"text file read from a path, one undecodable byte late in the file: {obs.get('detail')} (more elements than lines, or the read did not end)"}
+        return {"status": "ok", "why": ""}
     if not resp["indomain"]:
         return {"status": "skip", "why": "outside the domain"}
     if not resp["model_holds"]:
@@ -214,6 +263,8 @@ def random_case(rng):
     c = random_case0(rng)
     if not c["binary"] and rng.random() < 0.02:
         c["x"] = with_long_line(rng, c["x"])
+    elif not c["binary"] and c["family"] == "register" and rng.random() < 0.03:
+        c["bad_byte_path"] = True
     return c
 
 
